@@ -144,6 +144,7 @@ def compare_lxml(model, impl, args):
 from props import c03_oracle as _O  # noqa: E402,F401  (must be imported before c03_models)
 from props import c03_models  # noqa: E402
 from props import c03_compose  # noqa: E402
+from props import c03_frag  # noqa: E402
 from props.c03_gen import (  # noqa: E402
     gen_clean,
     gen_escape,
@@ -177,6 +178,10 @@ CORRS = [
          classify=c03_compose.classify_hyps,
          describe="hypotheses eventsOK/eventsPlain/userMapOK of serialize_*_partial: Lean on the model's events vs an independent "
                   "transcription evaluated on the REAL generator's events"),
+    Corr("ser.frag", c03_frag.gen_frag, c03_frag.impl_frag, compare=c03_frag.cmp_frag, classify=c03_frag.classify_frag,
+         describe="input-level hypotheses of serialize_*_FN_partial (ctxOK/valOKI of C01, ctxLexOK/valLexOK/valExactOK) on real universes: "
+                  "Lean vs an independent transcription; inside them the REAL serializer's document must be well-formed and (exact) "
+                  "denote the harness's reading of the REAL generator's events; composed model text = real text"),
     Corr("ns.clean", gen_clean, impl_clean, describe="clean_prefixes"),
     Corr("xml.split_qname", gen_split, impl_split, describe="split_qname"),
     Corr("ns.load_prefix", gen_prefix, impl_load_prefix, describe="load_prefix"),
